@@ -30,6 +30,8 @@ func C11(c *core.Ctx) {
 	c11NullFree(c)
 	c11Enums(c)
 	c11RegistryEnums(c)
+	c11RegimeType(c)
+	c11SkipPattern(c)
 }
 
 func c11Files(c *core.Ctx) {
@@ -148,6 +150,47 @@ func c11Files(c *core.Ctx) {
 						}
 						if arr, ok := val.([]any); !ok || len(arr) == 0 {
 							problems = append(problems, fmt.Sprintf("%s: %s must be a non-empty array", path, key))
+						}
+					default:
+						// value types of the remaining draft 2020-12 keywords (applicator, validation, meta-data vocabularies)
+						if strings.HasSuffix(path, "/properties") || strings.HasSuffix(path, "/$defs") {
+							break // member names, not keywords
+						}
+						want := ""
+						switch key {
+						case "enum", "examples", "prefixItems":
+							if _, ok := val.([]any); !ok {
+								want = "an array"
+							}
+						case "properties", "$defs", "patternProperties", "dependentSchemas", "dependentRequired":
+							if _, ok := val.(map[string]any); !ok {
+								want = "an object"
+							}
+						case "items", "additionalProperties", "not", "if", "then", "else", "contains", "propertyNames", "unevaluatedProperties", "unevaluatedItems":
+							switch val.(type) {
+							case map[string]any, bool:
+							default:
+								want = "a schema (object or boolean)"
+							}
+						case "title", "description", "format", "$id", "$schema", "$comment", "$anchor", "contentEncoding", "contentMediaType":
+							if _, ok := val.(string); !ok {
+								want = "a string"
+							}
+						case "minLength", "maxLength", "minItems", "maxItems", "minProperties", "maxProperties", "minContains", "maxContains":
+							if f, ok := val.(float64); !ok || f < 0 || f != float64(int64(f)) {
+								want = "a non-negative integer"
+							}
+						case "minimum", "maximum", "exclusiveMinimum", "exclusiveMaximum", "multipleOf":
+							if _, ok := val.(float64); !ok {
+								want = "a number"
+							}
+						case "uniqueItems", "deprecated", "readOnly", "writeOnly":
+							if _, ok := val.(bool); !ok {
+								want = "a boolean"
+							}
+						}
+						if want != "" {
+							problems = append(problems, fmt.Sprintf("%s: %s must be %s, found %T", path, key, want, val))
 						}
 					}
 					walk(val, path+"/"+key)
@@ -405,6 +448,9 @@ func c11NullFree(c *core.Ctx) {
 					})
 				}
 			}
+			if !required {
+				c11Producers(c, named, f, jn)
+			}
 			c.Ob("C11-R3", name+"."+f.Name(), f.Pos(), required,
 				fmt.Sprintf("%s.%s is serialised as %q without omitempty and marshals to null when empty, but its struct's validator does not require it: a document the library accepts can contain \"%s\": null, which the published schema (type object/array) rejects", name, f.Name(), jn, jn))
 		}
@@ -441,4 +487,83 @@ func c11ParseGuard(p *core.Program, named *types.Named) bool {
 		}
 	}
 	return false
+}
+
+// c11Producers — C11-R3, producer clause: a nullable member without omitempty
+// that validation does not require can still be null-free in documents the
+// library builds itself, provided every function that allocates the struct
+// gives the member a non-nil value (make / literal) unconditionally. Each
+// allocation site is an obligation.
+func c11Producers(c *core.Ctx, named *types.Named, f *types.Var, jn string) {
+	p := c.P
+	if _, isSlice := f.Type().Underlying().(*types.Slice); !isSlice {
+		if _, isMap := f.Type().Underlying().(*types.Map); !isMap {
+			return
+		}
+	}
+	for _, fd := range p.AllFuncs() {
+		info := fd.Pkg.TypesInfo
+		ast.Inspect(fd.Decl.Body, func(n ast.Node) bool {
+			var lit *ast.CompositeLit
+			var holder *types.Var
+			var at ast.Node
+			switch x := n.(type) {
+			case *ast.AssignStmt:
+				if len(x.Lhs) != 1 || len(x.Rhs) != 1 {
+					return true
+				}
+				rhs := ast.Unparen(x.Rhs[0])
+				if u, ok := rhs.(*ast.UnaryExpr); ok && u.Op == token.AND {
+					rhs = ast.Unparen(u.X)
+				}
+				switch r := rhs.(type) {
+				case *ast.CallExpr:
+					if id, ok := r.Fun.(*ast.Ident); ok && id.Name == "new" && len(r.Args) == 1 {
+						if tv, ok := info.Types[r.Args[0]]; ok && tv.IsType() && types.Identical(tv.Type, named) {
+							holder, at = core.VarOf(info, x.Lhs[0]), x
+						}
+					}
+				case *ast.CompositeLit:
+					if tv, ok := info.Types[r]; ok && types.Identical(tv.Type, named) {
+						lit, holder, at = r, core.VarOf(info, x.Lhs[0]), x
+					}
+				}
+			}
+			if at == nil {
+				return true
+			}
+			nonNil := func(e ast.Expr) bool {
+				e = ast.Unparen(e)
+				if call, ok := e.(*ast.CallExpr); ok {
+					if id, ok := call.Fun.(*ast.Ident); ok && id.Name == "make" {
+						return true
+					}
+				}
+				_, isLit := e.(*ast.CompositeLit)
+				return isLit
+			}
+			ok := false
+			if lit != nil {
+				for _, el := range lit.Elts {
+					if kv, isKV := el.(*ast.KeyValueExpr); isKV {
+						if id, isID := kv.Key.(*ast.Ident); isID && id.Name == f.Name() && nonNil(kv.Value) {
+							ok = true
+						}
+					}
+				}
+			}
+			if !ok && holder != nil {
+				// an unconditional assignment at the top level of the function body
+				for _, st := range fd.Decl.Body.List {
+					if as, isAs := st.(*ast.AssignStmt); isAs && len(as.Lhs) == 1 && len(as.Rhs) == 1 &&
+						core.IsFieldOfVar(info, as.Lhs[0], holder, f.Name()) && nonNil(as.Rhs[0]) {
+						ok = true
+					}
+				}
+			}
+			c.Ob("C11-R3", fmt.Sprintf("%s.%s#allocated-in:%s", core.TypeName(named), f.Name(), fd.Name()), at.Pos(), ok,
+				fmt.Sprintf("%s allocates a %s without giving %s a non-nil value unconditionally: when it stays empty it serialises as \"%s\": null, which the published schema (type array/object, required) rejects", fd.Name(), core.TypeName(named), f.Name(), jn))
+			return true
+		})
+	}
 }
